@@ -280,7 +280,9 @@ pub fn cmd(args: &Args) {
                 .iter()
                 .map(|name| entry_fingerprint(&dir.path.join(std::ffi::OsStr::from_bytes(name))))
                 .collect();
-            let (record, runner) = run_script_in(script, job, dir, &BTreeMap::new());
+            let mut opts = BTreeMap::new();
+            opts.insert("keep-going".to_string(), "1".to_string());
+            let (record, runner) = run_script_in(script, job, dir, &opts);
             let mut events: Vec<IoEvent> = record.open_events.clone();
             for step in &record.steps {
                 events.extend(step.events.iter().cloned());
